@@ -279,9 +279,36 @@ fn specific_with_schema<T: crate::corpus::Corpus>(name: &str, c: &mut Choices, l
 
 use apache_avro::reader::datum::GenericDatumReader as GenericDatumReaderAlias;
 
+/// `SpecificSingleObjectWriter::write_value` (the generic-value route of the typed writer): the
+/// documented count is the number of bytes written including the header.
+fn specific_write_value(c: &mut Choices, log: &mut CaseLog) -> CaseResult {
+    use crate::corpus::{Corpus, Inner};
+    use apache_avro::SpecificSingleObjectWriter;
+    let writer = SpecificSingleObjectWriter::<Inner>::new().map_err(|e| Fail::new("C18/specific/writer-new", format!("{e}")))?;
+    log.label("specific_write_value");
+    log.nontrivial = true;
+    for _ in 0..3 {
+        let v = Inner::arb(c);
+        let mut by_value = vec![];
+        let n = writer.write_value(v.clone(), &mut by_value).map_err(|e| Fail::new("C18/specific/write-value-error", format!("{e}")))?;
+        let mut by_ref = vec![];
+        writer.write_ref(&v, &mut by_ref).map_err(|e| Fail::new("C18/specific/write-error/Inner", format!("{e}")))?;
+        log.sub_evals += 1;
+        let d = Js::obj(vec![("value", Js::Str(format!("{v:?}"))), ("message", bytes_js(&by_value))]);
+        if n != by_value.len() {
+            return Err(Fail::new("C18/specific/byte-count/write_value", format!("write_value returned {n}, emitted {} bytes", by_value.len())).with(d));
+        }
+        if by_value != by_ref {
+            return Err(Fail::new("C18/specific/write-value-differs-from-write-ref", format!("{} vs {}", json::hex(&by_value), json::hex(&by_ref))).with(d));
+        }
+    }
+    Ok(())
+}
+
 pub fn case_specific(c: &mut Choices, log: &mut CaseLog) -> CaseResult {
     use crate::corpus::*;
-    match c.pick(6) {
+    match c.pick(7) {
+        6 => specific_write_value(c, log),
         0 => specific_with_schema::<Inner>("Inner", c, log),
         1 => specific_with_schema::<Scalars>("Scalars", c, log),
         2 => specific_with_schema::<Seqs>("Seqs", c, log),
